@@ -40,3 +40,11 @@ chk("C16", "static analysis: MIR decision tables vs Ord/PartialEq, lexicographic
     "Trusted: rustc MIR; the step from one-iteration tables to the whole loop is the standard induction on the counter "
     "(premises checked: init 0, +1, guard). assertc_eq!/assertc_ne! polarity and the const_eq!/const_cmp! coercion macros are "
     "covered only through the functions they expand to.")
+chk("C05", "static analysis: exact byte-set computation, MIR iteration decision tables, delegation rules",
+    "The byte set removed by the whitespace trimmers is computed exactly from the loop's continue condition and must equal "
+    "u8::is_ascii_whitespace; the strip_prefix/strip_suffix loops and the two-level trim_*_matches loops are compared as "
+    "iteration decision tables (length pre-check and its invariant, byte compare, one-byte advance from the right end, "
+    "rollback to the outer-iteration snapshot, needle reset on a full repetition, empty needle returns input) with the "
+    "definition of strip_prefix / trim_start_matches and their mirrors; 20 delegation rows tie starts_with/ends_with/strip_*/"
+    "trim* (bytes and str, all four pattern kinds) to those loops with the right arguments, order and result mapping.",
+    "Trusted: rustc MIR; the induction from the one-iteration tables to the whole loop is written (DESIGN.md), not mechanised.")
